@@ -411,13 +411,24 @@ func steerClientTimeout(res *vlib.Result, ctxID int, order string) {
 	h3 := make(chan struct{})
 	var h3once sync.Once
 	h4 := make(chan struct{}, 1)
-	c04hooks.on(hClientTimeout, sid, func() { h3once.Do(func() { close(h3) }) })
+	ansDone := make(chan struct{})
+	c04hooks.on(hClientTimeout, sid, func() {
+		h3once.Do(func() { close(h3) })
+		if order == "inside-answered-first" {
+			// the client's timeout branch has begun; it goes on only after the answer
+			// (held at its send point until now) has been accepted and acknowledged
+			select {
+			case <-ansDone:
+			case <-time.After(5 * time.Second):
+			}
+		}
+	})
 	c04hooks.on(hAnswerSend, sid, func() {
 		select {
 		case h4 <- struct{}{}:
 		default:
 		}
-		if order == "inside" {
+		if order == "inside" || order == "inside-answered-first" {
 			// the id was found; hold the send until the client has timed out
 			select {
 			case <-h3:
@@ -444,14 +455,19 @@ func steerClientTimeout(res *vlib.Result, ctxID int, order string) {
 		res.Inconcl(name + ": proxy was not matched")
 		return
 	}
+	var ansOnce sync.Once
 	post := func() {
-		tr.run("answer", sid, func() string { st, s := b.answer(sid, "ANSWER-"+sid); return fmt.Sprintf("%d %s", st, s) })
+		tr.run("answer", sid, func() string {
+			st, s := b.answer(sid, "ANSWER-"+sid)
+			ansOnce.Do(func() { close(ansDone) })
+			return fmt.Sprintf("%d %s", st, s)
+		})
 	}
 	switch order {
 	case "before":
 		time.Sleep(200 * time.Millisecond)
 		post()
-	case "inside":
+	case "inside", "inside-answered-first":
 		// shortly before the client's 10 s are over; the hook holds the send
 		// only for the remaining milliseconds, until the client timed out
 		time.Sleep(9700 * time.Millisecond)
@@ -693,7 +709,7 @@ func judgeOpenGeneric(res *vlib.Result, scenario string, tr *tracker, rec map[st
 }
 
 func TestVerifC04Steered(t *testing.T) {
-	res := vlib.NewResult("C04", "inpkg-broker-c04-steered", "scrambles (K simultaneous clients for fewer waiting proxies, many rounds) and deterministic steered scenarios: for each 10 s boundary (proxy-poll timeout vs client pop; client timeout vs answer) the opposing event is placed before / inside / after the window using verif hooks as callbacks, plus premature answers; each repeated in several broker instances; non-trivial = scenario executed to a verdict, distinct by (window, order)")
+	res := vlib.NewResult("C04", "inpkg-broker-c04-steered", "scrambles (K simultaneous clients for fewer waiting proxies, many rounds) and deterministic steered scenarios: for each 10 s boundary (proxy-poll timeout vs client pop; client timeout vs answer) the opposing event is placed before / inside / after the window using verif hooks as callbacks (for the client time-out also: the answer accepted and acknowledged after the time-out branch has begun and before it goes on), plus premature answers; each repeated in several broker instances; non-trivial = scenario executed to a verdict, distinct by (window, order)")
 	defer res.Finish()
 	c04hooks.install(hProxyTimeout, hClientPopped, hClientTimeout, hAnswerSend)
 	reps := vlib.Scale(2, 8)
@@ -706,6 +722,9 @@ func TestVerifC04Steered(t *testing.T) {
 			go func(id int, order string) { defer wg.Done(); steerProxyTimeout(res, 1000+id, order) }(id, order)
 			go func(id int, order string) { defer wg.Done(); steerClientTimeout(res, 2000+id, order) }(id, order)
 		}
+		id++
+		wg.Add(1)
+		go func(id int) { defer wg.Done(); steerClientTimeout(res, 2500+id, "inside-answered-first") }(id)
 		for _, wc := range []bool{false, true} {
 			id++
 			wg.Add(1)
@@ -887,6 +906,9 @@ func TestVerifC03AfterWindows(t *testing.T) {
 			go func(id int, order string) { defer wg.Done(); steerProxyTimeout(res, 51000+id, order) }(id, order)
 			go func(id int, order string) { defer wg.Done(); steerClientTimeout(res, 52000+id, order) }(id, order)
 		}
+		id++
+		wg.Add(1)
+		go func(id int) { defer wg.Done(); steerClientTimeout(res, 52500+id, "inside-answered-first") }(id)
 	}
 	wg.Wait()
 	res.RequireObs("availability_probes", int64(reps*6))
